@@ -265,6 +265,30 @@ pub(crate) fn c07_run(threads_form: bool, max_items: u32, do_cut: bool) {
   let mut produced: Vec<Timed> = vec![];
   let mut sub_time: Option<u64> = None;
   let evs = script.events();
+  // feedback: the subscriber's handler, on the first item it receives, pushes one more item into the source
+  // (observe_on / delay only: their deliveries run in scheduled tasks, not inside the source's own emission)
+  let feedback = !cold && !do_cut && matches!(op, MoveOp::ObserveOn | MoveOp::Delay(_)) && e::choose_bool();
+  let fed_back: std::rc::Rc<std::cell::RefCell<Option<(Val, u64, usize)>>> = Default::default();
+  let produced_n: std::rc::Rc<std::cell::Cell<(usize, bool)>> = Default::default(); // (events produced so far, terminal among them)
+  if feedback {
+    let vf = Val::var();
+    let (fb, pn) = (fed_back.clone(), produced_n.clone());
+    let mut fired = false;
+    world::w(|w| {
+      w.on_probe_event = Some(Box::new(move |ev: &Ev| {
+        if fired || !matches!(ev, Ev::Next(_)) {
+          return;
+        }
+        fired = true;
+        let (n, terminated) = pn.get();
+        e::note(format!("  (handler pushes {} into the source)", vf.show()));
+        let ok = if threads_form { cat::feed_hot_t(0, &Ev::Next(vf.clone())) } else { cat::feed_hot(0, &Ev::Next(vf.clone())) };
+        if ok && !terminated {
+          *fb.borrow_mut() = Some((vf.clone(), world::now(), n));
+        }
+      }))
+    });
+  }
   cut_point(exec);
   if cold {
     // the source runs when the (delayed) subscription task runs
@@ -289,6 +313,8 @@ pub(crate) fn c07_run(threads_form: bool, max_items: u32, do_cut: bool) {
         }
         e::note(format!("t={} source.{}", world::now(), world::show_ev(ev)));
         produced.push(Timed { ev: ev.clone(), at: world::now() });
+        let term = produced_n.get().1 || !matches!(ev, Ev::Next(_));
+        produced_n.set((produced.len(), term));
       } else {
         // not subscribed yet (subscription still scheduled): a hot source's event is lost
         e::note(format!("t={} source.{} (no subscriber yet)", world::now(), world::show_ev(ev)));
@@ -296,6 +322,11 @@ pub(crate) fn c07_run(threads_form: bool, max_items: u32, do_cut: bool) {
       cut_point(exec);
     }
     drain(exec, 8, |x| cut_point(x));
+  }
+  world::w(|w| w.on_probe_event = None);
+  // the fed-back item takes its place in the source's sequence: after the events produced before it
+  if let Some((v, at, n)) = fed_back.borrow_mut().take() {
+    produced.insert(n.min(produced.len()), Timed { ev: Ev::Next(v), at });
   }
   if do_cut {
     if !cut_done {
